@@ -20,7 +20,7 @@ func raceCheck(r *evid.Run, reqs []wproto.Req) {
 	bin := filepath.Join(os.TempDir(), "driver_race")
 	cmd := exec.Command("go", "build", "-race", "-tags", "verif", "-o", bin, "./cmd/driver")
 	cmd.Dir = evid.Root + "/harness"
-	cmd.Env = append(os.Environ(), "GOFLAGS=-mod=mod", "GOPROXY=off")
+	cmd.Env = append(os.Environ(), "GOPROXY=off") // GOFLAGS (-mod=mod -modfile=...) comes from scripts/check.sh
 	if b, err := cmd.CombinedOutput(); err != nil {
 		r.Broken("cannot build the race-detector worker: %v\n%s", err, b)
 		return
@@ -102,6 +102,14 @@ func raceRequests(thorough bool) []wproto.Req {
 				}
 			}
 		}
+	}
+	// two DIFFERENT stages failing in the same call: malformed blocks + a failing writer, malformed blocks + a
+	// failing callback (each error goes through its own handler goroutine)
+	for rep := 0; rep < 4*n; rep++ {
+		reqs = append(reqs,
+			wproto.Req{Op: "output", Massive: true, Doc: failing.String(), Procs: []int{2, 4, 8, 16}[rep%4], WFault: &wproto.WFault{How: "fail", At: 1 + rep%3}},
+			wproto.Req{Op: "walk", Massive: true, Doc: failing.String(), Procs: []int{2, 4, 8, 16}[rep%4], FailNames: []string{"r1", "r2", "r4", "r5", "r7"}},
+			wproto.Req{Op: "output", Massive: true, DryRun: true, Doc: failing.String() + "- z\n  - x/y\n", Procs: []int{4, 16}[rep%2], WFault: &wproto.WFault{How: "fail", At: 1}})
 	}
 	// the text spreader under a writer that starts failing at various points while many roots are in flight
 	for rep := 0; rep < 3*n; rep++ {
